@@ -1,4 +1,5 @@
 #[derive(Debug, Default)]
+#[cfg_attr(feature = "verif-hooks", derive(Clone))]
 pub struct Utf8Accum {
     /// Buffer for utf8 octets aggregation until full utf-8 char is received
     buffer: [u8; 4],
@@ -56,6 +57,14 @@ impl Utf8Accum {
         }
 
         None
+    }
+}
+
+#[cfg(feature = "verif-hooks")]
+impl Utf8Accum {
+    /// (buffer, expected, partial)
+    pub fn __verif_state(&self) -> ([u8; 4], u8, u8) {
+        (self.buffer, self.expected, self.partial)
     }
 }
 
